@@ -3,7 +3,9 @@
   Statement file. Proofs: LIST reading: JdProofs/DiffPatchList.lean (namespace `Jd.DPL`: the diff
   side, against the reference interpreter of hunks) COMPOSED HERE with JdProofs/StrictPatch.lean (the
   library's patch code = the reference interpreter on strict hunks). SET / MULTISET readings:
-  JdProofs/SetDiffPatch.lean (namespace `Jd.SetDP`), directly about the library's patch code.
+  JdProofs/SetDiffPatch.lean (namespace `Jd.SetDP`), directly about the library's patch code. MERGE
+  strategy in memory (alone, with SET, with MULTISET) and the SetKeys reading (strict strategy):
+  JdProofs/DiffPatchKeys.lean (namespace `Jd.DPK`), directly about the library's patch code.
 
   Model side: `diffM o a b` (JdModel/Diff.lean) is `a.Diff(b, options...)`; `patchM n d`
   (= `patchAll true n d`, JdModel/Patch.lean) is `n.Patch(d)` on the in-memory diff value;
@@ -33,13 +35,42 @@
     documents. The hypothesis `HashFaithful` cannot be dropped from the `equivB` part
     (`alias_needs_hashFaithful`, known finding KF-C04-alias), nor can `memOK`
     (`void_member_not_equivalent`).
-  * NOT PROVED — MERGE strategy in memory: JdProofs/MergeProofs.lean proves the RENDERED statements
-    C11 / C12 (files JdProps/C11.lean, C12.lean); it does NOT contain the in-memory statement
-    `patchM a (diffM [MERGE] a b)` Equals `b`, so nothing is restated here for MERGE (nor for SET /
-    MULTISET combined with MERGE).
-  * NOT PROVED — SetKeys (sets of objects identified by keys): the patch side is in JdProps/C08.lean;
-    the diff side is covered by correspondence and oracle only (known finding KF-C01-identperm lives
-    there). Also not proved: SET / MULTISET together with a Precision option.
+  * MERGE strategy IN MEMORY ("merge for null-free documents"; the diff value as returned, not its
+    RFC 7386 rendering, which is C11 / C12), no Precision:
+    - list reading of arrays (`isMerge o`, `dispatchTag o = .list`): `merge_diff_then_patch_list`
+      (either variant `sw` of the patch code), `patchM_diffM_MERGE` (`a.Patch(a.Diff(b, MERGE))`):
+        ∃ r, patchM a (diffM o a b) = .ok r ∧ equals o r b = true ∧ equivB o r b = true ∧
+             specEq r b = true;
+    - SET / MULTISET reading together with MERGE, no SetKeys: `merge_diff_then_patch_setmodes`,
+      `patchM_diffM_SET_MERGE`, `patchM_diffM_MULTISET_MERGE`: the same without `specEq`.
+    `a` may hold nulls (and void members); `b` must be null-free: that is the domain of the property.
+    No statement about MERGE was found false.
+  * SetKeys reading (arrays as sets of objects identified by the values of the keys `ks`), STRICT
+    strategy, no Precision (`dispatchTag o = .set`, `keysOf o = some ks`): `diff_then_patch_setkeys`
+    (either variant `sw`; the six hypotheses bundled as `DPK.KeysHyp`),
+    `diff_then_patch_setkeys_explicit` (the same with the six hypotheses written out),
+    `patchM_diffM_SetKeys` (`a.Patch(a.Diff(b, SetKeys(ks...)))`):
+        ∃ r, patchM a (diffM o a b) = .ok r ∧ equals o r b = true ∧ equivB o r b = true
+             (∧ hashCode o r = hashCode o b).
+    Members need NOT carry all the set keys (more than the property asks). The property as worded is
+    FALSE for SetKeys; the hypotheses of `KeysHyp` say where it holds, and three witnesses, each
+    satisfying every hypothesis but one, show that those three cannot be dropped:
+      `kt : KeyTuple`       ↔ known finding KF-C01-identperm (the identity of a member forgets which
+                              key carries which value): `identperm_breaks`, `Patch` returns an ERROR;
+      `pf : PathFaithful`   ↔ known finding KF-C01-keytwin (a member lacking a set key and a member
+                              holding null for it share the path object): `null_completion_breaks`,
+                              `Patch` succeeds on the WRONG member, result not `Equals` the target;
+      `kd : KeyedDistinct`  =  the SetKeys precondition "within one array of `a` the identities of the
+                              object members are pairwise distinct" (not in the property text, which
+                              allows "duplicated array elements"): `duplicate_member_breaks`, `Patch`
+                              changes the first bearer only, result not `Equals` the target;
+      `hf : HashFaithful`, `ksep : KindSepI`, `ib : IdentInj`: no-collision / no-alias hypotheses
+                              (KF-C04-alias and FNV collisions), as for SET.
+    All six are decidable on the two documents (`keysHyp_of_checks`); `witnesses_outside_keysHyp`
+    records that the three witnesses fall outside the bundle.
+  * NOT PROVED: SetKeys together with MERGE; SetKeys, SET or MULTISET together with a Precision
+    option; MERGE together with a Precision option. (The patch side of keyed members on arbitrary
+    hunks, incl. KF-C08-swallow, is in JdProps/C08.lean.)
 
   HYPOTHESES of the LIST theorems (all of `Jd.DPL.diffM_list_correct`)
     `a`, `b` list documents (`listDoc`: no set / multiset typed array node), `wf` (unique sorted
@@ -61,10 +92,43 @@
        `b` on the witness but is not equivalent to it;
     `FloatEq0` (`|x - y| ≤ +0` only for `x = y`: equivalent numbers have equal hash codes) and
        `FloatLaws` (`Equals` is reflexive: the patch compares a removed value with itself).
+
+  HYPOTHESES of the MERGE theorems
+    `isMerge o = true`, `precOf o = 0`; list reading: `dispatchTag o = .list`; set readings:
+       `dispatchTag o = .set ∨ .mset`, `keysOf o = none`;
+    `a.wf`, `a.rawDoc` (list reading) / `a.setDoc` (set readings): as read from JSON / YAML text;
+    `b.wf`, `b.rawDoc`, `b.finiteNums` / `b.setDoc`; `b.nullFree` (the domain of merge patches: in the
+       RENDERED form a null means "delete"; the property restricts MERGE to null-free documents);
+       `objVoidFree b` (void is not a JSON value);
+    `FloatLaws` (`Equals` is reflexive on the values copied from `b`); set readings only:
+       `HashFaithful o (subterms a ++ subterms b)` and `FloatEq0` (equal arrays are handed to the
+       strict set diff, which must be empty).
+
+  HYPOTHESES of the SetKeys theorems (all of `Jd.DPK.diff_then_patch_setkeys`)
+    `dispatchTag o = .set`, `keysOf o = some ks`, `isMerge o = false`, `precOf o = 0`;
+    `a.setDoc`, `b.setDoc`, `memOK a`, `memOK b`, `FloatEq0`, `FloatLaws`: as for SET;
+    `DPK.KeysHyp o ks a b`, six fields (definitions in JdProofs/DiffPatchKeys.lean §B.6,
+    JdProofs/DiffEmptySet.lean):
+      `hf`   `HashFaithful o (subterms a ++ subterms b)`;
+      `kd`   `KeyedDistinct o (subterms a)`: in every array of `a` the object members have pairwise
+             distinct identities (duplicates ARE allowed in `b`, and among non-object members);
+      `ksep` `KindSepI o (subterms a) (subterms a ++ subterms b)`: no object has the identity of a
+             non-object;
+      `ib`   `IdentInj o (subterms b)`: in every array of `b`, members with the same identity have the
+             same hash code;
+      `pf`   `PathFaithful o ks (subterms a)`: among the object members of one array of `a`, the
+             two-pass keyed lookup for the path object of a member hits only members with that
+             member's identity (when every member carries every key with a non-null value this is a
+             pure no-collision hypothesis);
+      `kt`   `KeyTuple o ks (subterms a) (subterms b)`: two objects with the same identity have, key
+             by key, values with the same hash code, and lack the same keys.
 -/
 import JdProofs.DiffPatchList
 import JdProofs.StrictPatch
 import JdProofs.SetDiffPatch
+import JdProofs.DiffPatchKeys
+
+set_option autoImplicit false
 
 namespace Jd.Props.C01
 open Jd Jd.Spec Jd.DPL
@@ -406,6 +470,234 @@ theorem void_member_not_equivalent :
     equivB [.set] (.obj []) (.obj [("k", .void)]) = false :=
   SetDP.Example.void_member_not_equiv
 
+/-! ## The property, MERGE strategy, in memory
+
+  The diff value `a.Diff(b, MERGE, ...)` is applied as returned (merge hunks: key paths, the new
+  value or void = "delete"); its RFC 7386 rendering is the subject of C11 / C12. -/
+
+/-- **C01, MERGE strategy in memory, list reading of arrays** (any option list with MERGE, no SET /
+    MULTISET / SetKeys, no Precision; either variant `sw` of the patch code, `sw = true` is the
+    library): for documents as read from text, `b` null-free, `a.Patch(a.Diff(b, MERGE))` succeeds
+    and its result `Equals` `b` under the options, is equivalent to it (`equivB o`) and
+    structurally equal to it (`specEq`: ordered arrays, exact numbers). `a` may hold nulls. -/
+theorem merge_diff_then_patch_list (L : FloatLaws) (sw : Bool) (o : Opts) (hm : isMerge o = true)
+    (ho : dispatchTag o = .list) (hprec : precOf o = 0) (a b : Json)
+    (haw : a.wf = true) (har : a.rawDoc = true)
+    (hbw : b.wf = true) (hbr : b.rawDoc = true) (hbn : b.nullFree = true)
+    (hbv : Merge.objVoidFree b = true) (hbf : b.finiteNums = true) :
+    ∃ r, patchAll sw a (diffM o a b) = .ok r ∧ equals o r b = true ∧ equivB o r b = true ∧
+      specEq r b = true :=
+  DPK.merge_diff_then_patch_list L sw o hm ho hprec a b haw har hbw hbr hbn hbv hbf
+
+/-- the headline for the library call `a.Patch(a.Diff(b, MERGE))` -/
+theorem patchM_diffM_MERGE (L : FloatLaws) (a b : Json)
+    (haw : a.wf = true) (har : a.rawDoc = true)
+    (hbw : b.wf = true) (hbr : b.rawDoc = true) (hbn : b.nullFree = true)
+    (hbv : Merge.objVoidFree b = true) (hbf : b.finiteNums = true) :
+    ∃ r, patchM a (diffM [.merge] a b) = .ok r ∧ equals [.merge] r b = true ∧
+      equivB [.merge] r b = true ∧ specEq r b = true :=
+  DPK.patchM_diffM_MERGE L a b haw har hbw hbr hbn hbv hbf
+
+/-- **C01, MERGE strategy in memory, SET / MULTISET reading of arrays** (no SetKeys, no Precision;
+    either variant `sw` of the patch code): for documents as read from text, `b` null-free,
+    `a.Patch(a.Diff(b, SET, MERGE))` (resp. MULTISET) succeeds and its result `Equals` `b` under the
+    options and is equivalent to it under the set (bag) reading -/
+theorem merge_diff_then_patch_setmodes (F : FloatEq0) (L : FloatLaws) (sw : Bool) (o : Opts)
+    (hmg : isMerge o = true) (hm : dispatchTag o = .set ∨ dispatchTag o = .mset)
+    (hk : keysOf o = none) (hp : precOf o = 0) (a b : Json)
+    (ha : a.setDoc = true) (hb : b.setDoc = true) (hbn : b.nullFree = true)
+    (hbv : Merge.objVoidFree b = true) (HF : HashFaithful o (subterms a ++ subterms b)) :
+    ∃ r, patchAll sw a (diffM o a b) = .ok r ∧ equals o r b = true ∧ equivB o r b = true :=
+  DPK.merge_diff_then_patch_setmodes F L sw o hmg hm hk hp a b ha hb hbn hbv HF
+
+/-- the headline for the library call `a.Patch(a.Diff(b, SET, MERGE))` -/
+theorem patchM_diffM_SET_MERGE (F : FloatEq0) (L : FloatLaws) (a b : Json)
+    (ha : a.setDoc = true) (hb : b.setDoc = true) (hbn : b.nullFree = true)
+    (hbv : Merge.objVoidFree b = true)
+    (HF : HashFaithful [.set, .merge] (subterms a ++ subterms b)) :
+    ∃ r, patchM a (diffM [.set, .merge] a b) = .ok r ∧ equals [.set, .merge] r b = true ∧
+      equivB [.set, .merge] r b = true :=
+  DPK.patchM_diffM_SET_MERGE F L a b ha hb hbn hbv HF
+
+/-- the headline for the library call `a.Patch(a.Diff(b, MULTISET, MERGE))` -/
+theorem patchM_diffM_MULTISET_MERGE (F : FloatEq0) (L : FloatLaws) (a b : Json)
+    (ha : a.setDoc = true) (hb : b.setDoc = true) (hbn : b.nullFree = true)
+    (hbv : Merge.objVoidFree b = true)
+    (HF : HashFaithful [.mset, .merge] (subterms a ++ subterms b)) :
+    ∃ r, patchM a (diffM [.mset, .merge] a b) = .ok r ∧ equals [.mset, .merge] r b = true ∧
+      equivB [.mset, .merge] r b = true :=
+  DPK.patchM_diffM_MULTISET_MERGE F L a b ha hb hbn hbv HF
+
+/-! ## The property, SetKeys reading (sets of objects identified by keys), strict strategy -/
+
+/-- **C01, SetKeys reading** (any option list selecting it: `dispatchTag o = .set`,
+    `keysOf o = some ks`; strict strategy, no Precision; either variant `sw` of the patch code):
+    for documents as read from text satisfying `DPK.KeysHyp o ks a b` (six decidable hypotheses, see
+    the header and `diff_then_patch_setkeys_explicit`), the hunks of `a.Diff(b)` apply to `a` in
+    sequence with the library's own patch code — every keyed lookup finds its member, no nested
+    application fails — and the result `Equals` `b` under the same options, is equivalent to `b`
+    for the advertised equivalence (arrays as sets, no hashes), and has the hash code of `b`.
+    Members need not carry all the set keys. -/
+theorem diff_then_patch_setkeys (F : FloatEq0) (L : FloatLaws) (sw : Bool) (o : Opts)
+    (ks : List String) (hd : dispatchTag o = .set) (hk : keysOf o = some ks)
+    (hmg : isMerge o = false) (hp : precOf o = 0) (a b : Json)
+    (ha : a.setDoc = true) (hb : b.setDoc = true)
+    (ha' : DPL.memOK a = true) (hb' : DPL.memOK b = true) (K : DPK.KeysHyp o ks a b) :
+    ∃ r, patchAll sw a (diffM o a b) = .ok r ∧ equals o r b = true ∧
+      equivB o r b = true ∧ hashCode o r = hashCode o b :=
+  DPK.diff_then_patch_setkeys F L sw o ks hd hk hmg hp a b ha hb ha' hb' K
+
+/-- the same with the six hypotheses of `DPK.KeysHyp` written out:
+    `hf` no collision / alias among the sub-terms; `kd` pairwise distinct identities among the object
+    members of each array of `a` (the SetKeys precondition); `ksep` no object shares its identity
+    with a non-object; `ib` in each array of `b` equal identities only for equal hash codes; `pf` the
+    keyed lookup for a member's path object hits only bearers of that member's identity (excludes
+    KF-C01-keytwin); `kt` equal identities only for key tuples equal key by key (excludes
+    KF-C01-identperm) -/
+theorem diff_then_patch_setkeys_explicit (F : FloatEq0) (L : FloatLaws) (sw : Bool) (o : Opts)
+    (ks : List String) (hd : dispatchTag o = .set) (hk : keysOf o = some ks)
+    (hmg : isMerge o = false) (hp : precOf o = 0) (a b : Json)
+    (ha : a.setDoc = true) (hb : b.setDoc = true)
+    (ha' : DPL.memOK a = true) (hb' : DPL.memOK b = true)
+    (hf : HashFaithful o (subterms a ++ subterms b))
+    (kd : DPK.KeyedDistinct o (subterms a))
+    (ksep : DES.KindSepI o (subterms a) (subterms a ++ subterms b))
+    (ib : DES.IdentInj o (subterms b))
+    (pf : DPK.PathFaithful o ks (subterms a))
+    (kt : DPK.KeyTuple o ks (subterms a) (subterms b)) :
+    ∃ r, patchAll sw a (diffM o a b) = .ok r ∧ equals o r b = true ∧
+      equivB o r b = true ∧ hashCode o r = hashCode o b :=
+  DPK.diff_then_patch_setkeys F L sw o ks hd hk hmg hp a b ha hb ha' hb' ⟨hf, kd, ksep, ib, pf, kt⟩
+
+/-- the headline for the library call `a.Patch(a.Diff(b, SetKeys(ks...)))`: it succeeds and yields a
+    document that `Equals` `b` under `SetKeys(ks...)` (and is equivalent to `b`, arrays read as sets) -/
+theorem patchM_diffM_SetKeys (F : FloatEq0) (L : FloatLaws) (ks : List String) (a b : Json)
+    (ha : a.setDoc = true) (hb : b.setDoc = true)
+    (ha' : DPL.memOK a = true) (hb' : DPL.memOK b = true)
+    (K : DPK.KeysHyp [.setKeys ks] ks a b) :
+    ∃ r, patchM a (diffM [.setKeys ks] a b) = .ok r ∧ equals [.setKeys ks] r b = true ∧
+      equivB [.setKeys ks] r b = true :=
+  DPK.patchM_diffM_SetKeys F L ks a b ha hb ha' hb' K
+
+/-- `DPK.KeysHyp` is decidable on the two documents: six Boolean checks over their (finitely many)
+    sub-terms establish it (this is how the examples and the witnesses below are checked, in the
+    kernel) -/
+theorem keysHyp_of_checks {o : Opts} {ks : List String} {a b : Json}
+    (h1 : ((subterms a ++ subterms b).all fun x => (subterms a ++ subterms b).all fun y =>
+      hashCode o x != hashCode o y || equivB o x y) = true)
+    (h2 : (subterms a).all (DPK.nodeKeyedDistinct o) = true)
+    (h3 : ((subterms a).all fun x => (subterms a ++ subterms b).all fun y =>
+      identOf o x != identOf o y || x.isObj == y.isObj) = true)
+    (h4 : (subterms b).all (DES.nodeIdentInj o) = true)
+    (h5 : (subterms a).all (DPK.nodePathFaithful o ks) = true)
+    (h6 : ((subterms a).all fun x => (subterms b).all fun y => DPK.keyTupleOK o ks x y) = true) :
+    DPK.KeysHyp o ks a b :=
+  ⟨DPK.hashFaithful_of_check h1, DPK.keyedDistinct_of_check h2, DES.Example.kindSepI_of_check h3,
+    DES.Example.identInj_of_check h4, DPK.pathFaithful_of_check h5, DPK.keyTuple_of_check h6⟩
+
+/-! ### Counter-witnesses: where the property is FALSE under SetKeys
+
+  Three pairs of documents as read from text (`setDoc`, `memOK`). Each satisfies every hypothesis of
+  `diff_then_patch_setkeys` but ONE field of `KeysHyp`, and `a.Patch(a.Diff(b, SetKeys(...)))` does
+  not yield a document that `Equals` `b`. Proved on the model by evaluation; replayed on the Go
+  library with the same outcomes. The documents, literally: -/
+
+example : DPK.Witness.o2 = [.setKeys ["id", "k"]] ∧ DPK.Witness.o1 = [.setKeys ["id"]] := ⟨rfl, rfl⟩
+
+/-- `[{"id":"5","k":"3"}]` → `[{"id":"3","k":"5"}]` -/
+example : DPK.Witness.pa = .arr .raw [.obj [("id", .str "5"), ("k", .str "3")]] ∧
+    DPK.Witness.pb = .arr .raw [.obj [("id", .str "3"), ("k", .str "5")]] := ⟨rfl, rfl⟩
+
+/-- `[{"id":"1","v":"1"},{"id":"1","v":"1"}]` → `[{"id":"1","v":"2"}]`; the result of the patch is
+    `[{"id":"1","v":"2"},{"id":"1","v":"1"}]` -/
+example : DPK.Witness.da = .arr .raw [.obj [("id", .str "1"), ("v", .str "1")],
+      .obj [("id", .str "1"), ("v", .str "1")]] ∧
+    DPK.Witness.db = .arr .raw [.obj [("id", .str "1"), ("v", .str "2")]] ∧
+    DPK.Witness.dy = .obj [("id", .str "1"), ("v", .str "2")] ∧
+    DPK.Witness.dx = .obj [("id", .str "1"), ("v", .str "1")] := ⟨rfl, rfl, rfl, rfl⟩
+
+/-- `[{"id":"1"},{"id":"1","k":null}]` → `[{"id":"1","v":"y"},{"id":"1","k":null}]`; the result of
+    the patch is `[{"id":"1"},{"id":"1","k":null,"v":"y"}]` -/
+example : DPK.Witness.na = .arr .raw [.obj [("id", .str "1")], .obj [("id", .str "1"), ("k", .null)]] ∧
+    DPK.Witness.nb = .arr .raw [.obj [("id", .str "1"), ("v", .str "y")],
+      .obj [("id", .str "1"), ("k", .null)]] ∧
+    DPK.Witness.n1 = .obj [("id", .str "1")] ∧
+    DPK.Witness.n4 = .obj [("id", .str "1"), ("k", .null), ("v", .str "y")] := ⟨rfl, rfl, rfl, rfl⟩
+
+/-- **known finding KF-C01-identperm: `KeyTuple` cannot be dropped.** `[{"id":"5","k":"3"}]` →
+    `[{"id":"3","k":"5"}]` under SetKeys(id,k): every member carries both keys, no two members of an
+    array share an identity, every hypothesis of the theorem but `KeyTuple` holds — the two members
+    have the same identity (the identity combines the SORTED hash codes of the key values) — and
+    `a.Patch(a.Diff(b, SetKeys(id,k)))` returns an ERROR, in both variants of the patch code: the
+    first hunk changes `id`, the second no longer finds the member. -/
+theorem identperm_breaks :
+    DPK.Witness.pa.setDoc = true ∧ DPK.Witness.pb.setDoc = true ∧
+    DPL.memOK DPK.Witness.pa = true ∧ DPL.memOK DPK.Witness.pb = true ∧
+    HashFaithful DPK.Witness.o2 (subterms DPK.Witness.pa ++ subterms DPK.Witness.pb) ∧
+    DPK.KeyedDistinct DPK.Witness.o2 (subterms DPK.Witness.pa) ∧
+    DES.KindSepI DPK.Witness.o2 (subterms DPK.Witness.pa)
+      (subterms DPK.Witness.pa ++ subterms DPK.Witness.pb) ∧
+    DES.IdentInj DPK.Witness.o2 (subterms DPK.Witness.pb) ∧
+    DPK.PathFaithful DPK.Witness.o2 ["id", "k"] (subterms DPK.Witness.pa) ∧
+    ¬ DPK.KeyTuple DPK.Witness.o2 ["id", "k"] (subterms DPK.Witness.pa) (subterms DPK.Witness.pb) ∧
+    patchM DPK.Witness.pa (diffM DPK.Witness.o2 DPK.Witness.pa DPK.Witness.pb) = .err ∧
+    patchAll false DPK.Witness.pa (diffM DPK.Witness.o2 DPK.Witness.pa DPK.Witness.pb) = .err :=
+  DPK.Witness.identperm_breaks
+
+/-- **the SetKeys precondition: `KeyedDistinct` cannot be dropped.**
+    `[{"id":"1","v":"1"},{"id":"1","v":"1"}]` → `[{"id":"1","v":"2"}]` under SetKeys(id): one key,
+    every member carries it, a duplicated array element (inside the wording of C01); every
+    hypothesis of the theorem but `KeyedDistinct` holds; `a.Patch(a.Diff(b, SetKeys(id)))` SUCCEEDS
+    with `[{"id":"1","v":"2"},{"id":"1","v":"1"}]` (the keyed lookup patches the first bearer of the
+    key value only), which does NOT `Equals` `b`. -/
+theorem duplicate_member_breaks :
+    DPK.Witness.da.setDoc = true ∧ DPK.Witness.db.setDoc = true ∧
+    DPL.memOK DPK.Witness.da = true ∧ DPL.memOK DPK.Witness.db = true ∧
+    HashFaithful DPK.Witness.o1 (subterms DPK.Witness.da ++ subterms DPK.Witness.db) ∧
+    ¬ DPK.KeyedDistinct DPK.Witness.o1 (subterms DPK.Witness.da) ∧
+    DES.KindSepI DPK.Witness.o1 (subterms DPK.Witness.da)
+      (subterms DPK.Witness.da ++ subterms DPK.Witness.db) ∧
+    DES.IdentInj DPK.Witness.o1 (subterms DPK.Witness.db) ∧
+    DPK.PathFaithful DPK.Witness.o1 ["id"] (subterms DPK.Witness.da) ∧
+    DPK.KeyTuple DPK.Witness.o1 ["id"] (subterms DPK.Witness.da) (subterms DPK.Witness.db) ∧
+    patchM DPK.Witness.da (diffM DPK.Witness.o1 DPK.Witness.da DPK.Witness.db)
+      = .ok (.arr .set [DPK.Witness.dy, DPK.Witness.dx]) ∧
+    equals DPK.Witness.o1 (.arr .set [DPK.Witness.dy, DPK.Witness.dx]) DPK.Witness.db = false :=
+  DPK.Witness.duplicate_member_breaks
+
+/-- **known finding KF-C01-keytwin: `PathFaithful` cannot be dropped.**
+    `[{"id":"1"},{"id":"1","k":null}]` → `[{"id":"1","v":"y"},{"id":"1","k":null}]` under
+    SetKeys(id,k): the two members have different identities, every hypothesis of the theorem but
+    `PathFaithful` holds, no collision is involved. The hunk for the member lacking `k` is addressed
+    through `{"id":"1","k":null}` (`Diff` writes null for an absent key) and the first pass of the
+    lookup hits the OTHER member: `a.Patch(a.Diff(b, SetKeys(id,k)))` SUCCEEDS with
+    `[{"id":"1"},{"id":"1","k":null,"v":"y"}]`, which does NOT `Equals` `b`. (Outside the wording of
+    C01, which asks every member to carry all the keys; inside the domain of the theorem.) -/
+theorem null_completion_breaks :
+    DPK.Witness.na.setDoc = true ∧ DPK.Witness.nb.setDoc = true ∧
+    DPL.memOK DPK.Witness.na = true ∧ DPL.memOK DPK.Witness.nb = true ∧
+    HashFaithful DPK.Witness.o2 (subterms DPK.Witness.na ++ subterms DPK.Witness.nb) ∧
+    DPK.KeyedDistinct DPK.Witness.o2 (subterms DPK.Witness.na) ∧
+    DES.KindSepI DPK.Witness.o2 (subterms DPK.Witness.na)
+      (subterms DPK.Witness.na ++ subterms DPK.Witness.nb) ∧
+    DES.IdentInj DPK.Witness.o2 (subterms DPK.Witness.nb) ∧
+    ¬ DPK.PathFaithful DPK.Witness.o2 ["id", "k"] (subterms DPK.Witness.na) ∧
+    DPK.KeyTuple DPK.Witness.o2 ["id", "k"] (subterms DPK.Witness.na) (subterms DPK.Witness.nb) ∧
+    patchM DPK.Witness.na (diffM DPK.Witness.o2 DPK.Witness.na DPK.Witness.nb)
+      = .ok (.arr .set [DPK.Witness.n1, DPK.Witness.n4]) ∧
+    equals DPK.Witness.o2 (.arr .set [DPK.Witness.n1, DPK.Witness.n4]) DPK.Witness.nb = false :=
+  DPK.Witness.null_completion_breaks
+
+/-- the three witnesses fall outside the hypothesis bundle of the SetKeys theorem — each through the
+    one field named above — so none of them contradicts it -/
+theorem witnesses_outside_keysHyp :
+    ¬ DPK.KeysHyp DPK.Witness.o2 ["id", "k"] DPK.Witness.pa DPK.Witness.pb ∧
+    ¬ DPK.KeysHyp DPK.Witness.o1 ["id"] DPK.Witness.da DPK.Witness.db ∧
+    ¬ DPK.KeysHyp DPK.Witness.o2 ["id", "k"] DPK.Witness.na DPK.Witness.nb :=
+  ⟨fun K => DPK.Witness.identperm_breaks.2.2.2.2.2.2.2.2.2.1 K.kt,
+   fun K => DPK.Witness.duplicate_member_breaks.2.2.2.2.2.1 K.kd,
+   fun K => DPK.Witness.null_completion_breaks.2.2.2.2.2.2.2.2.1 K.pf⟩
+
 /-! ## Non-vacuity
 
   `[true, 1, [1], null]` → `[false, 1, [1, 1], null, null]` (three hunks, one inside the nested
@@ -414,7 +706,16 @@ theorem void_member_not_equivalent :
   `{"s":[true,null,{"k":null}]}` → `{"s":[{"k":null},null,false],"t":null}` (a set hunk below the
   key `s`, an added member, an object member of the set) satisfies every hypothesis of the set-mode
   theorems (`HashFaithful` checked on its 13 sub-terms), under SET and under MULTISET; only the
-  IEEE-754 laws are left as assumptions. -/
+  IEEE-754 laws are left as assumptions.
+  MERGE: `{"a":1,"b":[1,2],"c":{"d":"x","n":null},"z":true}` → `{"a":2,"b":[2,1],"c":{"e":[true]},
+  "y":{"k":"v"}}` (the source holds a null; keys deleted, added, replaced, a nested object) satisfies
+  every hypothesis of `patchM_diffM_MERGE`; the pair of JdProofs/MergeSetModes.lean those of the
+  SET+MERGE and MULTISET+MERGE theorems.
+  SetKeys(id,k): `[{"id":"1","k":"a","v":"x"},{"id":"2","k":"a","v":["p"]},"s"]` →
+  `[{"id":"2","k":"a","v":["q"],"w":true},{"id":"1","k":"b","v":"x"},"t"]` (a member changed inside a
+  nested array, one removed, one added, scalar members) and `[{"id":"1","v":"x"},{"v":"q"}]` →
+  `[{"id":"1","v":"z"},{"v":"r"}]` (members lacking set keys, found by the second pass of the keyed
+  lookup) satisfy `KeysHyp` (all six fields checked in the kernel). -/
 
 example (F : FloatEq0) (L : FloatLaws) :
     ∃ r, patchM SetDP.Example.exA (diffM [.set] SetDP.Example.exA SetDP.Example.exB) = .ok r ∧
@@ -441,5 +742,46 @@ example (L : FloatLaws) :
   obtain ⟨r, hr, he, _⟩ :=
     diff_then_patch_list L [] rfl rfl rfl Example.exA Example.exB h1 h2 h3 h4 h5 h6 h7 h8 h9 h10
   exact ⟨r, hr, he⟩
+
+example (L : FloatLaws) :
+    ∃ r, patchM DPK.ExampleA.exA (diffM [.merge] DPK.ExampleA.exA DPK.ExampleA.exB) = .ok r ∧
+      equals [.merge] r DPK.ExampleA.exB = true ∧ equivB [.merge] r DPK.ExampleA.exB = true ∧
+      specEq r DPK.ExampleA.exB = true :=
+  patchM_diffM_MERGE L _ _ DPK.ExampleA.ex_docs.1 DPK.ExampleA.ex_docs.2.1
+    DPK.ExampleA.ex_docs.2.2.1 DPK.ExampleA.ex_docs.2.2.2.1 DPK.ExampleA.ex_docs.2.2.2.2.1
+    DPK.ExampleA.ex_docs.2.2.2.2.2.1 DPK.ExampleA.ex_docs.2.2.2.2.2.2
+
+example (F : FloatEq0) (L : FloatLaws) :
+    ∃ r, patchM MSet.Example.exA (diffM [.set, .merge] MSet.Example.exA MSet.Example.exB) = .ok r ∧
+      equals [.set, .merge] r MSet.Example.exB = true ∧
+      equivB [.set, .merge] r MSet.Example.exB = true :=
+  patchM_diffM_SET_MERGE F L _ _ MSet.Example.ex_docs.1 MSet.Example.ex_docs.2.1
+    MSet.Example.ex_docs.2.2.1 MSet.Example.ex_docs.2.2.2 MSet.Example.ex_hashFaithful_set
+
+example (F : FloatEq0) (L : FloatLaws) :
+    ∃ r, patchM MSet.Example.exA (diffM [.mset, .merge] MSet.Example.exA MSet.Example.exB) = .ok r ∧
+      equals [.mset, .merge] r MSet.Example.exB = true ∧
+      equivB [.mset, .merge] r MSet.Example.exB = true :=
+  patchM_diffM_MULTISET_MERGE F L _ _ MSet.Example.ex_docs.1 MSet.Example.ex_docs.2.1
+    MSet.Example.ex_docs.2.2.1 MSet.Example.ex_docs.2.2.2 MSet.Example.ex_hashFaithful_mset
+
+example : DPK.KeysHyp [.setKeys ["id", "k"]] ["id", "k"] DPK.ExampleB.exA DPK.ExampleB.exB ∧
+    DPK.KeysHyp [.setKeys ["id", "k"]] ["id", "k"] DPK.ExampleB.exC DPK.ExampleB.exD :=
+  ⟨DPK.ExampleB.ex_keysHyp, DPK.ExampleB.ex3_keysHyp⟩
+
+example (F : FloatEq0) (L : FloatLaws) :
+    ∃ r, patchM DPK.ExampleB.exA (diffM [.setKeys ["id", "k"]] DPK.ExampleB.exA DPK.ExampleB.exB)
+        = .ok r ∧
+      equals [.setKeys ["id", "k"]] r DPK.ExampleB.exB = true ∧
+      equivB [.setKeys ["id", "k"]] r DPK.ExampleB.exB = true :=
+  DPK.ExampleB.ex_run F L
+
+/-- members lacking set keys -/
+example (F : FloatEq0) (L : FloatLaws) :
+    ∃ r, patchM DPK.ExampleB.exC (diffM [.setKeys ["id", "k"]] DPK.ExampleB.exC DPK.ExampleB.exD)
+        = .ok r ∧
+      equals [.setKeys ["id", "k"]] r DPK.ExampleB.exD = true ∧
+      equivB [.setKeys ["id", "k"]] r DPK.ExampleB.exD = true :=
+  DPK.ExampleB.ex3_run F L
 
 end Jd.Props.C01
